@@ -283,7 +283,7 @@ func c05(c *core.Ctx) {
 
 	// ---------------------------------------------------------------- R2 / R3
 	closers := c05Closes(c, ls, fns)
-	if c.Rule("R3", "no send on a closed channel: every send on a closable channel is in the closing function before the close, or under the closer's lock on a not-closed edge of its flag", 6) {
+	if c.Rule("R3", "no send on a closed channel: every send on a closable channel is in the closing function before the close, or under the closer's lock on a not-closed edge of its flag", 3) {
 		c05Sends(c, ls, fns, closers)
 		c.EndRule()
 	}
@@ -1533,6 +1533,14 @@ func c05DoneBeforeFinalWrites(c *core.Ctx, fns []*ssa.Function) {
 			}
 		})
 		sends := sendSites([]*ssa.Function{fn})
+		// frame writes made through a forwarding method (sendFrameLocked(f)) count as well
+		core.Instrs(fn, func(in ssa.Instruction) {
+			if call, ok := in.(*ssa.Call); ok {
+				if cal := call.Call.StaticCallee(); cal != nil && sendsOnParam(cal) < 0 && isInprocFrameWriter(cal) {
+					sends = append(sends, sendSite{fn, in, nil})
+				}
+			}
+		})
 		if len(cancelCalls) == 0 || len(sends) == 0 {
 			continue
 		}
